@@ -215,8 +215,23 @@ func (env *SpecEnv) resolveType(te STypeExpr) (types.Type, TKind) {
 			}
 		}
 		if t == nil {
+			// any package imported anywhere in the module with that name
+			for _, pp := range env.FC.E.P.Pkgs {
+				for _, imp := range pp.Types.Imports() {
+					if imp.Name() == te.Pkg && t == nil {
+						if obj := imp.Scope().Lookup(te.Name); obj != nil {
+							if tn, ok := obj.(*types.TypeName); ok {
+								t = tn.Type()
+							}
+						}
+					}
+				}
+			}
 			// any loaded package with that name
 			for _, pp := range env.FC.E.P.Pkgs {
+				if t != nil {
+					break
+				}
 				if pp.Types.Name() == te.Pkg {
 					if obj := pp.Types.Scope().Lookup(te.Name); obj != nil {
 						if tn, ok := obj.(*types.TypeName); ok {
@@ -432,7 +447,9 @@ func (env *SpecEnv) ident(name string) TVal {
 	}
 	// ghost variables
 	if g := fc.E.ghost(env.PkgPath, name); g != nil {
-		gt, kind := env.resolveType(g.Type)
+		genv := *env
+		genv.PkgPath = g.PkgPath // a ghost's type is written in its declaring package
+		gt, kind := genv.resolveType(g.Type)
 		hv := HeapVar{"$g." + name, env.sortOfKind(gt, kind), HGhost}
 		return TVal{T: fc.heapGet(env.Cur, hv), Ty: gt, Kind: kind}
 	}
@@ -992,7 +1009,8 @@ func (env *SpecEnv) call(c SCall) TVal {
 		return TVal{T: Store(s.T, k.T, TFalse), Ty: s.Ty, Kind: KSet}
 	case "emptySet":
 		env.fail("emptySet needs a type; use forall")
-	case "held":
+	case "held", "rheld":
+		// held(T.mu): write-locked; rheld(T.mu): locked for reading or writing
 		// held(lockname): the monitor is held at this point
 		argN(1)
 		name := ""
@@ -1006,6 +1024,9 @@ func (env *SpecEnv) call(c SCall) TVal {
 		}
 		if name == "" {
 			env.fail("held needs a monitor name Type.field")
+		}
+		if c.Fun == "rheld" {
+			return TVal{T: Or(fc.heapGet(env.Cur, heldVar(name)), fc.heapGet(env.Cur, rheldVar(name))), Ty: tBool}
 		}
 		return TVal{T: fc.heapGet(env.Cur, HeapVar{"$held." + name, SBool, HGhost}), Ty: tBool}
 	case "asIface":
